@@ -989,6 +989,16 @@ func (e *Exec) deliver(bi, ti int, rec *blockRecord, h int64) {
 				e.addViol(viol("C11", "rejected-tx-left-trace", e.step, map[string]string{"stage": "handler-failed", "kind": spec.Kind},
 					"a %s transaction whose message failed (code %d) changed %d key(s) besides the fee, e.g. %s", spec.Kind, resp0.Code, len(extra), extra[0]))
 			}
+			// ... and the two accounts it may touch change by the fee, nothing else
+			if f.Fee != nil {
+				sa, fc := hx(e.kr.Get(spec.Acct).Addr), moduleAddrHex("fee_collector")
+				paid := new(big.Int).Sub(balOf(before, sa), balOf(st, sa))
+				got := new(big.Int).Sub(balOf(st, fc), balOf(before, fc))
+				if paid.Cmp(f.Fee) != 0 || got.Cmp(f.Fee) != 0 {
+					e.addViol(viol("C11", "rejected-tx-left-trace", e.step, map[string]string{"stage": "handler-failed", "kind": spec.Kind, "what": "more-than-the-fee"},
+						"a %s transaction whose message failed (code %d) cost its sender %s and brought the fee collector %s; the fee is %s", spec.Kind, resp0.Code, paid, got, f.Fee))
+				}
+			}
 		}
 	}
 	// ---- governance: only the named parameter may change, and only through its owner (C17)
